@@ -7,6 +7,7 @@ driver for the size-class grid model (Float instance).
 items:  reset T|F | add k | change cMin cMax none|bins T|F | adjust T|F | update t <list> | backup |
         revert | setpsd <list> | load <list> | adaptive T|F | enablerec | record t | setrec t | saverec |
         loadrec | mom k <N> <w>   (query, no state change)
+`grid.samewidth ...` — one re-mesh, class widths and third moments of the code's re-mesh and of the skip-rescale variant (below).
 state:  min max bins adaptive psd bounds size prevPsd prevBounds recording nrows widthB widthP
         lastRowB lastRowP lastTime sumB sumP sumT
 answer: `I <orig...> <state>` then per item `S <state>` (`adjust` appends `R chg newIdx`),
@@ -110,9 +111,27 @@ def gridRun : P String := do
     toString s0.minBins, toString s0.maxBins, dump none s0]
   pure (" ".intercalate (head :: (runItems s0 items).toList))
 
+def optFout : Option Float → String
+  | none => "E"
+  | some x => fout x
+
+/-- `grid.samewidth cMin cMax bins minBins maxBins <psd> newMin newMax none|bins`: one re-mesh of a supplied distribution.
+answer: old class width, new class width, M3 before, M3 after `change`, M3 of the interpolated (not rescaled)
+distribution (`remeshNewV`), M3 after the variant `changeSkipSameWidth`; `E` where the operation raises. -/
+def gridSameWidth : P String := do
+  let cMin ← flt; let cMax ← flt; let bins ← nat; let minB ← nat; let maxB ← nat
+  let psd ← flts
+  let a ← flt; let b ← flt; let n ← optNat
+  let s : St := { init cMin cMax bins minB maxB with psd := psd }
+  let c := change s a b n false
+  pure (" ".intercalate [fout (firstWidth s.bounds), optFout (c.map (fun s' => firstWidth s'.bounds)),
+    fout (thirdMoment s), optFout (c.map thirdMoment), fout (remeshNewV s a b n),
+    optFout ((changeSkipSameWidth s a b n).map thirdMoment)])
+
 def handle (verb : String) : Option (P String) :=
   match verb with
   | "grid.run" => some gridRun
+  | "grid.samewidth" => some gridSameWidth
   | _ => none
 
 end KawinV.Drv.C08
